@@ -327,8 +327,9 @@ fn main() {
     let reduced = grid(&[(Some(0.9), 90), (Some(0.3), 30), (Some(0.1), 10)], &[0, 1, 2, 4]);
     let grids = [full, reduced];
     // size bounds: (grid, from, to). The reduced grid only adds the sizes above the full-grid bound.
-    // DESIGN asked for quick <=5 full + <=7 reduced; measured throughput (~6e7 evaluations/s on 16 cores) allows <=8.
-    let (full_max, red_max) = run.tier.pick((5usize, 8usize), (6usize, 10usize));
+    // quick = DESIGN bounds (<=5 full, 6..7 reduced: 7.1e8 evaluations, 11 s at load 12, ~28 s on a heavily shared machine);
+    // size 8 (1.3e9) fits in ~20 s on 16 free cores but not when the machine is shared, so it is left to thorough.
+    let (full_max, red_max) = run.tier.pick((5usize, 7usize), (6usize, 10usize));
     let plan: Vec<(usize, usize, usize)> = vec![(0, 0, full_max), (1, full_max + 1, red_max)];
 
     // settings: mode x enforcement x min_peers_to_query (7 comes from MaintenanceConfig::default(), threshold 5/7)
